@@ -68,7 +68,7 @@ func c04Configs() []c04Config {
 }
 
 var c04Chars = []string{"a", "b", "1", ".", "-", "_", " "}
-var c04Endings = []string{"", "@", "~", `\@`, `\~`}
+var c04Endings = []string{"", "@", "~", `\@`, `\~`, "~@", "@~"}
 
 type c04Case struct {
 	Word     string `json:"word"`
@@ -253,6 +253,28 @@ func C04(r *core.Run) {
 		}
 	})
 	deaths = append(deaths, d2...)
+	// the configuration file named with -f (a name, a sub-path, the default name in a sub-directory) is the one
+	// whose patterns are used: same output as with those patterns in the default file
+	type fRes struct {
+		Flag, Got, Want string
+	}
+	fOuts, d4 := core.Parallel(r, "fflag", in{dir, 0}, 1, func(in in, shard, n int, emit func(fRes)) {
+		base := filepath.Join(in.Dir, "fflag")
+		dummy := ref.CmdCfg{UnixEvasion: "_av-u_", UnixSuffix: "_av-u-suffix_", UnixNoSpace: "_av-ns-u-suffix_", WindowsEvasion: "_av-w_", WindowsSuffix: "_av-w-suffix_", WindowsNoSpace: "_av-ns-w-suffix_"}
+		refRoot, root := filepath.Join(base, "ref"), filepath.Join(base, "root")
+		core.Tree{"regex-assembly/toolchain.yaml": c04YamlPlain(dummy), "regex-assembly/include/": ""}.Materialise(refRoot)
+		core.Tree{"regex-assembly/toolchain.yaml": c04YamlPlain(c04CRS), "regex-assembly/alt.yaml": c04YamlPlain(dummy), "regex-assembly/profiles/strict.yaml": c04YamlPlain(dummy),
+			"regex-assembly/legacy/toolchain.yaml": c04YamlPlain(dummy), "regex-assembly/include/": ""}.Materialise(root)
+		prog := "##!> assemble\n##!> cmdline unix\ncurl@\nls -l\nw~\n##!<\n##!> cmdline windows\ncmd.exe~\ndir@\n##!<\n##!<\n"
+		want := core.RunCLI(r.Crs, refRoot, prog, nil, "-d", refRoot, "regex", "generate", "-")
+		for _, f := range []string{"alt.yaml", "./alt.yaml", "profiles/strict.yaml", "legacy/toolchain.yaml", "profiles/../alt.yaml"} {
+			for _, form := range [][]string{{"-f", f}, {"--configuration", f}, {"--configuration=" + f}} {
+				got := core.RunCLI(r.Crs, root, prog, nil, append(append([]string{"-d", root}, form...), "regex", "generate", "-")...)
+				emit(fRes{strings.Join(form, " "), fmt.Sprint(got.Exit, " ", got.Stdout), fmt.Sprint(want.Exit, " ", want.Stdout)})
+			}
+		}
+	})
+	deaths = append(deaths, d4...)
 	// blocks with many entries: every listed word (with the configured evasion text between its characters) must be matched whatever the
 	// size of the block (sizes around powers of two and multiples of them)
 	type bigRes struct {
@@ -313,6 +335,11 @@ func C04(r *core.Run) {
 	deaths = append(deaths, d3...)
 	if r.IsWorker() {
 		return
+	}
+	for _, f := range fOuts {
+		if f.Got != f.Want {
+			r.Report(core.Violation{Clause: "config-file-flag", Key: f.Flag, What: fmt.Sprintf("with `%s` the patterns of that file are not the ones used: generated %q, with the same patterns in the default file %q", f.Flag, tailStr(f.Got, 150), tailStr(f.Want, 150)), Detail: f})
+		}
 	}
 	bigRuns := 0
 	for _, b := range bigs {
@@ -393,7 +420,7 @@ func C04(r *core.Run) {
 	r.Cov["traces_validated_against_impl"] = validated
 	r.Cov["exhaustive"] = tot.Inconclusive == 0 && len(deaths) == 0
 	r.Cov["bound"] = map[string]any{"word_len": maxLen, "chars": c04Chars, "endings": c04Endings, "templates": 5, "configs": len(c04Configs()), "shells": 2}
-	r.Cov["rule"] = "all words of <= word_len characters over the character set x endings x {unix, windows} x 4 templates x all configurations (+ verbatim lines); oracle: language of the reference expansion of the word (every evasion string of the configured patterns at once) is included in the generated regex, decided by product-automaton search; states/transitions = product states/transitions; every case is distinct and non-trivial (a word is always rewritten)"
+	r.Cov["rule"] = "all words of <= word_len characters over the character set x endings x {unix, windows} x 4 templates x all configurations (+ verbatim lines); oracle: language of the reference expansion of the word (every evasion string of the configured patterns at once) is included in the generated regex, decided by product-automaton search; states/transitions = product states/transitions; every case is distinct and non-trivial (a word is always rewritten); stage large: blocks of 63..1025 words (both shells, top level and nested) in which every word with the configured evasion text must be matched; configurations include files with unknown keys and YAML anchors"
 	r.Cov["samples"] = []any{c04Case{"a.b@", "unix", 3, "crs-like"}, c04Case{`a -\~`, "windows", 1, "crs-like-block-scalars"}, c04Case{"'[ab]+c", "unix", 2, "absent"}}
 	r.Assume = append(r.Assume, "expected patterns per configuration are known to the generator (the YAML is written from them), the model never parses YAML",
 		"inclusion (not equality) is demanded: the property only says every variant is matched")
